@@ -138,6 +138,31 @@ def _check_consistent(case):
     P = nm(p)
     fails, evals = [], 0
 
+    # one partition object that answers every query of this case in turn (the fresh object of each query comes first):
+    # the answer is a function of (partition, consensus), not of what the object was asked before, and asking leaves
+    # the partition as it was
+    shared = OrderedPartition([set(Element(x) for x in g) for g in P])
+    shared_state = {"dead": False}
+
+    def ask_shared(cons, cons_rankings, expect, tag):
+        nonlocal evals
+        if shared_state["dead"]:
+            return
+        evals += 1
+        try:
+            got2, hung2 = _guarded(lambda: shared.consistent_with(cons))
+        except Exception as e:
+            got2, hung2 = "%s: %s" % (type(e).__name__, str(e)[:120]), False
+        groups = [sorted((A_val(e) for e in g), key=repr) for g in shared.partition]
+        if hung2 or got2 is not expect or groups != [sorted(g, key=repr) for g in P]:
+            shared_state["dead"] = True
+            fails.append({"clause": "C07.consistent", "site": SITE_CW + " on a partition object queried before",
+                          "detail": {"partition": P, "consensus": cons_rankings, "got": "no answer" if hung2 else got2,
+                                     "expected": expect, "partition_object_now": groups, "pairs": tag}})
+
+    def A_val(e):
+        return e.value if isinstance(e, Element) else e
+
     def one(cons_rankings, tag, with_dataset=False):
         nonlocal evals
         evals += 1
@@ -172,6 +197,8 @@ def _check_consistent(case):
             fails.append({"clause": "C07.consistent", "site": SITE_CW,
                           "detail": {"partition": P, "consensus": cons_rankings, "got": got, "expected": expect,
                                      "pairs": tag}})
+        elif not with_dataset:
+            ask_shared(cons, cons_rankings, expect, tag)
 
     # same universe: every ranking with ties
     for c in O.ordered_partitions(list(range(k))):
